@@ -2314,6 +2314,8 @@ fn run_observed(cfg: &Config, ops: &[COp], observers: usize, oseed: u64) -> (Obs
                                 std::hint::spin_loop();
                             }
                             std::hint::black_box(e.value().vid);
+                            // reading the counters is an observation too
+                            std::hint::black_box(c.entry_count() + c.weighted_size());
                             held.fetch_add(1, Ordering::Relaxed);
                         }
                         drop(it);
@@ -2325,7 +2327,20 @@ fn run_observed(cfg: &Config, ops: &[COp], observers: usize, oseed: u64) -> (Obs
     }
     let mut results = Vec::with_capacity(ops.len());
     let mut counter = 0u64;
-    for op in ops {
+    // the observers must really be beside the writer: it starts when each of them has observed once,
+    // and every few operations it lets them observe again (bounded waits: a loaded machine only makes
+    // the run less dense, never stuck)
+    let wait_for = |target: u64, max: Duration| {
+        let t0 = Instant::now();
+        while observers > 0 && made.load(Ordering::Relaxed) < target && t0.elapsed() < max {
+            std::thread::yield_now();
+        }
+    };
+    wait_for(observers as u64, Duration::from_millis(50));
+    for (oi, op) in ops.iter().enumerate() {
+        if oi % 8 == 7 {
+            wait_for(made.load(Ordering::Relaxed) + 1, Duration::from_millis(2));
+        }
         let r = match *op {
             COp::Insert { k, w } => {
                 counter += 1;
@@ -2403,9 +2418,11 @@ fn gen_observed_prog(rng: &mut Rng) -> Prog {
     Prog { cfg, threads: vec![ops], idle }
 }
 
+const DEADLOCK_BESIDE_OBSERVERS: &str = "the writer and the observer threads have not finished and for 6 s every one of them was seen blocked (kernel state S/D, never runnable) without consuming CPU time: a call never returns beside threads that only observe (contains_key, iteration, entry_count / weighted_size while holding an entry reference)";
+
 /// `run_observed` on a helper thread, given up after 20 s of wall-clock time (no verdict either way:
 /// the run is skipped and counted; its threads and its cache are left behind).
-fn run_observed_bounded(cfg: &Config, ops: &[COp], observers: usize, oseed: u64) -> Option<(ObsOutcome, u64, u64)> {
+fn run_observed_bounded(cfg: &Config, ops: &[COp], observers: usize, oseed: u64) -> Result<(ObsOutcome, u64, u64), bool> {
     let (tx, rx) = std::sync::mpsc::channel();
     let cfg2 = cfg.clone();
     let ops2 = ops.to_vec();
@@ -2413,15 +2430,46 @@ fn run_observed_bounded(cfg: &Config, ops: &[COp], observers: usize, oseed: u64)
         let r = run_observed(&cfg2, &ops2, observers, oseed);
         let _ = tx.send(r);
     });
-    rx.recv_timeout(Duration::from_secs(20)).ok()
+    // every thread of the process but this one (which only waits here)
+    let me = std::process::id();
+    let others = || -> Vec<u32> {
+        std::fs::read_dir("/proc/self/task")
+            .map(|d| d.filter_map(|e| e.ok().and_then(|e| e.file_name().to_str().and_then(|s| s.parse::<u32>().ok()))).filter(|t| *t != me).collect())
+            .unwrap_or_default()
+    };
+    let tids: Arc<Mutex<Vec<u32>>> = Arc::new(Mutex::new(others()));
+    let mut idle = mmv::report::IdleWatch::for_threads(6, Arc::clone(&tids));
+    let t0 = Instant::now();
+    loop {
+        match rx.recv_timeout(Duration::from_millis(100)) {
+            Ok(r) => return Ok(r),
+            Err(std::sync::mpsc::RecvTimeoutError::Disconnected) => return Err(false),
+            Err(std::sync::mpsc::RecvTimeoutError::Timeout) => {}
+        }
+        if let Ok(mut g) = tids.lock() {
+            *g = others();
+        }
+        if t0.elapsed() > Duration::from_secs(2) && idle.idle() {
+            // the writer and every observer are blocked for good (Err(true): a deadlock, decided on thread states)
+            return Err(true);
+        }
+        if t0.elapsed() > Duration::from_secs(20) {
+            // merely slow: no verdict
+            return Err(false);
+        }
+    }
 }
 
 /// The first difference between the solo run and an observed run, if any.
 fn observed_difference(prog: &Prog, observers: usize, oseed: u64, stats: &mut mmv::monitor::Stats) -> Option<String> {
     let ops = &prog.threads[0];
     let (solo, obs, made, held) = match (run_observed_bounded(&prog.cfg, ops, 0, 0), run_observed_bounded(&prog.cfg, ops, observers, oseed)) {
-        (Some((solo, _, _)), Some((obs, made, held))) => (solo, obs, made, held),
-        _ => {
+        (Ok((solo, _, _)), Ok((obs, made, held))) => (solo, obs, made, held),
+        (a, b) => {
+            if a.err() == Some(true) || b.err() == Some(true) {
+                stats.inc("observed_runs_deadlocked");
+                return Some(DEADLOCK_BESIDE_OBSERVERS.to_string());
+            }
             stats.inc("observed_runs_given_up_after_20s");
             return None;
         }
@@ -2463,13 +2511,21 @@ fn mode_observers(args: &Args) {
         report.evaluations += 1;
         set_current(&prog.text("observers", &format!("{}", observers), oseed), false);
         report.stats.inc("observed_programs");
+        if report.stats.c.get("observed_runs_deadlocked").copied().unwrap_or(0) >= 1 {
+            report.notes.push(format!("stopped after {} programs: a run deadlocked", pi));
+            break;
+        }
         if report.stats.c.get("observed_runs_given_up_after_20s").copied().unwrap_or(0) >= 3 {
             report.notes.push(format!("stopped after {} programs: three runs were given up", pi));
             break;
         }
         if let Some(why) = observed_difference(&prog, observers, oseed, &mut report.stats) {
             report.stats.inc("violating_runs");
-            let v = Violation { props: vec!["C15"], sig: "pure:observer-threads-changed-behaviour".into(), detail: why, op_index: 0 };
+            let v = if why == DEADLOCK_BESIDE_OBSERVERS {
+                Violation { props: vec!["C09"], sig: "deadlock:beside-observer-threads".into(), detail: why, op_index: 0 }
+            } else {
+                Violation { props: vec!["C15"], sig: "pure:observer-threads-changed-behaviour".into(), detail: why, op_index: 0 }
+            };
             record(&mut report, &v, &prog.text("observers", &format!("{}", observers), oseed), &prop, &known, &mut sigs);
         }
         report.distinct.entry("C15".into()).or_default().push(prog.fingerprint());
@@ -2478,7 +2534,7 @@ fn mode_observers(args: &Args) {
         }
     }
     mmv::types::obj_track_set(true);
-    let given_up = report.stats.c.get("observed_runs_given_up_after_20s").copied().unwrap_or(0);
+    let given_up = report.stats.c.get("observed_runs_given_up_after_20s").copied().unwrap_or(0) + report.stats.c.get("observed_runs_deadlocked").copied().unwrap_or(0);
     if given_up > 0 {
         report.notes.push(format!("{} observed run(s) did not finish within 20 s of wall-clock time and were skipped without a verdict", given_up));
     }
